@@ -48,6 +48,7 @@ def explore(tier, seed, res=None, replay=None):
         nd = df.iloc[[r.randrange(len(df)) for _ in range(r.randrange(2, 7))]].reset_index(drop=True)
         nd["z"] = [r.randrange(-8, 9) / 4 for _ in range(len(nd))]
         nd["n"] = [r.randrange(3, 12) for _ in range(len(nd))]
+        nd["nbig"] = nd["n"] + 250
         # ---- binary ------------------------------------------------------------------------------
         for var, succ in (("k", None), ("k", 2), ("k", 7), ("h", "'q'"), ("h", "'zz'"), ("f", None),
                           ("k", 1), ("co", None), ("cu", None), ("kz", 0), ("kz", None), ("co", "'mid'")):
@@ -94,8 +95,11 @@ def explore(tier, seed, res=None, replay=None):
         bad["s2"] = bad["s"] + 0.5
         bad["s3"] = bad["n"] + 1
         bad["n2"] = bad["n"] + 0.25
+        bad["s8"] = bad["s"].astype("int8")        # compact dtype, trials beyond its range
+        bad["nbig"] = bad["n"] + 250
         for fn in ("p", "prop", "proportion"):
-            for sname, tname in (("s", "n"), ("s2", "n"), ("s3", "n"), ("s", "n2"), ("s", 9), ("s", 2)):
+            for sname, tname in (("s", "n"), ("s2", "n"), ("s3", "n"), ("s", "n2"), ("s", 9), ("s", 2),
+                                 ("s8", 300), ("s8", "nbig")):
                 res.evaluations += 1
                 arg = f"{fn}({sname}, {tname})"
                 case = {"helper": arg, "seed_path": fi}
@@ -131,11 +135,22 @@ def explore(tier, seed, res=None, replay=None):
             res.evaluations += 1
             case = {"helper": f"{a} vs {b}", "seed_path": fi}
             try:
-                m1 = formulae.design_matrices(f"y ~ {a}", df, extra_namespace=ns).common.design_matrix
-                m2 = formulae.design_matrices(f"y ~ {b}", df, extra_namespace=ns).common.design_matrix
+                d1 = formulae.design_matrices(f"y ~ {a}", df, extra_namespace=ns).common
+                d2 = formulae.design_matrices(f"y ~ {b}", df, extra_namespace=ns).common
+                m1, m2 = d1.design_matrix, d2.design_matrix
                 if not np.array_equal(np.asarray(m1, float), np.asarray(m2, float)):
                     res.failures.append({"case": case, "impl": "designs differ", "expected": "identical",
                                          "finding": None, "why": f"aliases {a} and {b} give different designs"})
+                # synonyms at prediction time too (same frame, all values seen in training)
+                def on_new(d):
+                    try:
+                        return np.asarray(d.evaluate_new_data(nd).design_matrix, float).tolist()
+                    except Exception as e:  # noqa  (e.g. D14: binary's success value absent)
+                        return type(e).__name__
+                if on_new(d1) != on_new(d2):
+                    res.failures.append({"case": dict(case, when="prediction"), "impl": "designs differ",
+                                         "expected": "identical", "finding": None,
+                                         "why": f"aliases {a} and {b} give different designs on new data"})
                 res.nontrivial.add((a, b, fi))
             except Exception as e:  # noqa
                 res.failures.append({"case": case, "impl": type(e).__name__, "expected": "identical",
